@@ -2,7 +2,7 @@ use crate::bitpack::BitPack;
 use crate::bs_read::ByteStreamReadBuffer;
 use crate::cv_section::CompressedVectorSectionHeader;
 use crate::error::Converter;
-use crate::packet::PacketHeader;
+use crate::packet::{IgnoredPacketHeader, IndexPacketHeader, PacketHeader};
 use crate::paged_reader::PagedReader;
 use crate::Error;
 use crate::PointCloud;
@@ -89,15 +89,19 @@ impl<'a, T: Read + Seek> QueueReader<'a, T> {
         let packet_header = PacketHeader::read(self.reader)?;
         match packet_header {
             PacketHeader::Index(header) => {
-                // Just skip over index packets
-                let mut buffer = vec![0; header.packet_length as usize];
+                // Just skip over index packets, the packet length includes the header
+                let remaining = header.packet_length.saturating_sub(IndexPacketHeader::SIZE);
+                let mut buffer = vec![0; remaining as usize];
                 self.reader
                     .read_exact(&mut buffer)
                     .read_err("Failed to read data of index packet")?
             }
             PacketHeader::Ignored(header) => {
-                // Just skip over ignored packets
-                let mut buffer = vec![0; header.packet_length as usize];
+                // Just skip over ignored packets, the packet length includes the header
+                let remaining = header
+                    .packet_length
+                    .saturating_sub(IgnoredPacketHeader::SIZE);
+                let mut buffer = vec![0; remaining as usize];
                 self.reader
                     .read_exact(&mut buffer)
                     .read_err("Failed to read data of ignored packet")?
